@@ -345,6 +345,49 @@ theorem inflight_not_before (max : Int) (c : Chan) (h : ChanInv c) (id : Nat) (p
     (id, p) ∈ keys (run max c ops).ifpq :=
   inflight_stays max c h id p hin ops hearly hnot
 
+/-! ### the window between the two critical sections of a scan iteration (open finding) -/
+
+/-- "Never timed out before its deadline" at the granularity of the code's critical sections:
+whenever the second half of a scan iteration (started by a heap pop at time `t`) releases a message,
+that message's current in-flight deadline — if it has one — is not later than `t`. -/
+def never_early_micro : Prop :=
+  ∀ (c : Chan) (t : Int) (between : List Op) (max : Int),
+    ChanInv c →
+    ∀ e, (scanPopPQ c t).2 = some e →
+      let c' := run max (scanPopPQ c t).1 between
+      (scanFinishPop c' e.id).2 = true →
+      ∀ p, deadlineOf (scanFinishPop c' e.id).1 e.id = some p → p ≤ t
+
+/-- the schedule: message 1 delivered to client 1 at 0 with timeout 10; the scan at t = 10 pops it
+off the heap; before the scan's second critical section the holder sends `REQ 1 0` and the message
+(same object) is delivered again, to client 2, at 10 with timeout 60000; the scan then finds id 1
+in the in-flight map, "owned" by the object's current clientID, and times the fresh delivery out:
+released at t = 10 with deadline 60010. -/
+def raceStart : Chan := (startInFlight {} 0 1 1 10).1
+def raceBetween : List Op := [.requeue 10 1 1 0, .inflight 10 1 2 60000]
+
+/-- **`never_early_micro` is FALSE of the current code** (known finding C04 `scan-window-requeue`;
+replayed on the real code with the `chan.scan.afterPQPop` hook on every run). What holds is
+`scan_never_early` + `inflight_not_before`: never early when nothing touches that message between
+the two critical sections of the iteration — the atomic-step reading of `processInFlightQueue`. -/
+theorem never_early_micro_false : ¬ never_early_micro := by
+  intro h
+  have hinv : ChanInv raceStart := startInFlight_inv {} 0 1 1 10 inv_init
+  have := h raceStart 10 raceBetween 900000 hinv ⟨1, 10, -1⟩ (by decide +kernel) (by decide +kernel)
+    60010 (by decide +kernel)
+  omega
+
+/-- in that schedule the message is moreover handed out twice while one holder still has it, and the
+data invariant is lost (heap entry without map entry) -/
+example : (scanFinishPop (run 900000 (scanPopPQ raceStart 10).1 raceBetween) 1).1.ready = [1, 1] ∧
+    (scanFinishPop (run 900000 (scanPopPQ raceStart 10).1 raceBetween) 1).1.ifmap = [] ∧
+    deadlineOf (scanFinishPop (run 900000 (scanPopPQ raceStart 10).1 raceBetween) 1).1 1 = some 60010 := by
+  decide +kernel
+
+/-- without interference the two halves are the atomic step: same released message, same state -/
+example : (scanFinishPop (scanPopPQ raceStart 10).1 1).1.ready = (scanInFlight raceStart 10).chan.ready := by
+  decide +kernel
+
 /-- **Scan selection**: `UniqRands q n` never panics and returns `min q n` pairwise distinct
 indices below `n`, for every random stream; when `n ≤ q` it is a permutation of `0..n-1`: with at
 most `QueueScanSelectionCount` channels EVERY channel is scanned on every tick. -/
